@@ -3,7 +3,7 @@
 Model: coq/Model/GraphM.v (adjacency reading of shortest_path(directed=False, unweighted=True), hop
 metric, components, first largest component, restriction of rows AND columns, pair/collection
 dispatch) on top of Model/MGHM.v (C05).  Each case passes one graph pair in several representations
-(nested lists / dense / csr / csc / lil / coo / dok / dia / bsr matrices and csr / coo / csc sparse arrays, Fortran-ordered float / bool / int dense arrays; upper, lower, mixed, symmetric, weighted; relabelled) or a
+(nested lists / dense / csr / csc / lil / coo / dok / dia / bsr matrices and csr / coo / csc sparse arrays, Fortran-ordered float / bool / int dense arrays, sparse matrices with explicitly stored zeros; upper, lower, mixed, symmetric, weighted; relabelled) or a
 collection of 1-5 graphs to persim.gromov_hausdorff; distance matrices, warnings, exceptions and
 lower bounds are compared with the model inside Coq (Corr/GraphCorr.v), and the spec (own BFS,
 components, brute-force mGH) is evaluated on the outputs independently of the model."""
@@ -39,7 +39,8 @@ ASSUMPTIONS = [
     "are the stored non-zeros, and connected_components labels components by smallest vertex (both compared per case)",
     "theorems about the fallback hold for ANY shortest-path result whose finiteness relation is an equivalence (and "
     "for any correct shortest-path answer, spec sp); the executable instance is proved to be one",
-    "explicitly stored zeros in sparse inputs, NaN/inf entries and non-square inputs are outside the generator",
+    "explicitly stored zeros in sparse inputs are non-edges (generated: formats *_xz, *_xzh); NaN/inf entries and "
+    "non-square inputs are outside the generator",
     "the upper bound of a collection is random: each collection is run with several NumPy seeds",
     "lower-bound soundness inherits C05's explicit greedy-completeness hypothesis",
 ]
@@ -88,7 +89,11 @@ ENCODINGS = ["upper", "lower", "mixed", "symmetric", "weighted"]
 # before /repo d1032fb converted sparse input with .tocsr()
 # dense_*_F: Fortran-ordered (non-C-contiguous) dense arrays, as produced by transposing or relabelling A[p][:, p]
 FORMATS = ["list", "dense", "csr", "csc", "lil", "csr_array", "coo", "dok", "dia", "bsr", "coo_array", "csc_array",
-           "dense_float_F", "dense_bool_F", "dense_int_F", "dense_float"]
+           "dense_float_F", "dense_bool_F", "dense_int_F", "dense_float",
+           # *_xz / *_xzh: sparse input built from (data, (rows, cols)) triples in which every / a pseudo-random half of the
+           # off-diagonal zero entries is EXPLICITLY STORED (between components of disconnected graphs and inside them);
+           # a stored zero is not an edge
+           "csr_xz", "csc_xz", "coo_xz", "bsr_xz", "csr_xzh", "csc_xzh", "coo_xzh", "bsr_xzh"]
 
 
 def _encode(rng, A, enc, perm):
@@ -246,6 +251,16 @@ def impl_run(cases):
             return [list(r) for r in A]
         if fmt == "dense":
             return a
+        if "_xz" in fmt:
+            base, flavour = fmt.split("_")
+            n = len(A)
+            rows, cols, data = [], [], []
+            for i in range(n):
+                for j in range(n):
+                    keep = flavour == "xz" or (i * 7 + j * 13 + n) % 3 != 0
+                    if a[i, j] != 0 or (i != j and keep):
+                        rows.append(i); cols.append(j); data.append(int(a[i, j]))
+            return sps.coo_matrix((data, (rows, cols)), shape=(n, n)).asformat(base)
         if fmt.startswith("dense_"):
             dt = {"float": float, "bool": bool, "int": int}[fmt.split("_")[1]]
             b = (a != 0).astype(dt) if dt is bool else a.astype(dt)
